@@ -410,4 +410,4 @@ def search(ctx):
     tight = not ctx.is_open(KEY_MAX_SHIFT)
     if not tight:
         ctx.exclude(KEY_MAX_SHIFT)
-    core.run_given(ctx, "cases", cases(tight_margins=tight), lambda c: check(ctx, c), ctx.n(4500, 54000))
+    core.run_given(ctx, "cases", cases(tight_margins=tight), lambda c: check(ctx, c), ctx.n(4000, 48000))
